@@ -10,31 +10,35 @@
 From Fiano Require Import Base.Bytes Base.BytesLemmas Base.GoInt Gen.Consts Gen.GoKernels Model.TightenMe.
 From Coq Require Import ZifyBool ZifyNat.
 Open Scope Z_scope.
+Set Default Timeout 120.
 
 (* a changed kernel must make a tie lemma FAIL, not make a conversion check run for an hour *)
 Set Default Timeout 120.
 
 Lemma go_FlashRegion_Valid_tie base limit :
   go_FlashRegion_Valid limit base = TightenMe.fr_valid (mkFR base limit).
-Proof. reflexivity. Qed.
+Proof.
+  first [ reflexivity
+        | unfold go_FlashRegion_Valid, TightenMe.fr_valid; cbn [fr_base fr_limit]; lia ].
+Qed.
 
 Lemma go_FlashRegion_BaseOffset_tie base limit : 0 <= base < 65536 ->
   go_FlashRegion_BaseOffset base = TightenMe.base_off (mkFR base limit).
 Proof.
-  intros H. unfold go_FlashRegion_BaseOffset, TightenMe.base_off, ifd_block. cbn [fr_base].
-  rewrite (wrap_small 32 base) by lia. apply wrap_small. lia.
+  intros H. unfold go_FlashRegion_BaseOffset, TightenMe.base_off, ifd_block. cbn [fr_base]. go_arith.
 Qed.
 
 Lemma go_FlashRegion_EndOffset_tie base limit : 0 <= limit < 65536 ->
   go_FlashRegion_EndOffset limit = TightenMe.end_off (mkFR base limit).
 Proof.
-  intros H. unfold go_FlashRegion_EndOffset, TightenMe.end_off, ifd_block. cbn [fr_limit].
-  rewrite (wrap_small 32 limit) by lia. rewrite (wrap_small 32 (limit + 1)) by lia. apply wrap_small. lia.
+  intros H. unfold go_FlashRegion_EndOffset, TightenMe.end_off, ifd_block. cbn [fr_limit]. go_arith.
 Qed.
 
 Lemma go_MEPartitionEntry_OffsetIsValid_tie o :
   go_MEPartitionEntry_OffsetIsValid o = TightenMe.offset_is_valid o.
-Proof. reflexivity. Qed.
+Proof.
+  first [ reflexivity | unfold go_MEPartitionEntry_OffsetIsValid, TightenMe.offset_is_valid; lia ].
+Qed.
 
 Lemma go_IsErased_flash_tie buf pol : go_IsErased buf pol = TightenMe.is_erased buf pol.
 Proof.
